@@ -25,7 +25,9 @@ type State struct {
 	inputs                  []InputDecl
 	obs                     []Observation
 	obsBad                  bool
-	sends                   int // channel sends performed on this path
+	sends                   int  // channel sends performed on this path
+	parked                  bool // this flow blocked forever on an empty channel (only inside vRunSpawned)
+	locks                   int  // mutexes currently held (Lock/RLock minus Unlock/RUnlock)
 	lastNowSec, lastNowNsec *Term
 	tag                     string // deliberate case splits (vChoice, vBytesEach, concretize): states with different tags never merge
 }
@@ -53,6 +55,8 @@ func (s *State) fork() *State {
 	n.obsBad = s.obsBad
 	n.tag = s.tag
 	n.sends = s.sends
+	n.locks = s.locks
+	n.parked = s.parked
 	n.lastNowSec, n.lastNowNsec = s.lastNowSec, s.lastNowNsec
 	return n
 }
@@ -218,7 +222,7 @@ func (e *Exec) store(st *State, p Ptr, v Value) {
 
 // tryMerge merges b into a (returning a new state) or reports failure.
 func (e *Exec) tryMergeStates(a, b *State) (m *State, cond *Term, ok bool) {
-	if a.noMerge || b.noMerge || e.opts.NoMerge || a.tag != b.tag || a.sends != b.sends {
+	if a.noMerge || b.noMerge || e.opts.NoMerge || a.tag != b.tag || a.sends != b.sends || a.locks != b.locks {
 		return nil, nil, false
 	}
 	if (a.panicVal != nil) != (b.panicVal != nil) || a.pending != nil || b.pending != nil {
@@ -251,7 +255,7 @@ func (e *Exec) tryMergeStates(a, b *State) (m *State, cond *Term, ok bool) {
 			panic(r)
 		}
 	}()
-	n := &State{heap: make(map[int]Value, len(a.heap)), counts: map[string]int{}, tag: a.tag, sends: a.sends}
+	n := &State{heap: make(map[int]Value, len(a.heap)), counts: map[string]int{}, tag: a.tag, sends: a.sends, locks: a.locks}
 	for id, va := range a.heap {
 		if vb, ok := b.heap[id]; ok {
 			if sameValue(va, vb) {
